@@ -1071,6 +1071,7 @@ def run(report, tier):
     # 5. a child creating concurrently with the parent's flush / create / exit: all schedules (engine A)
     from checks import c20_conc
     c20_conc.run_part(report, tier)
+    c20_conc.fork_entered_part(report, tier)
     report.assume("in the history parts TmpPool children run one create() to completion before the next operation starts; "
                   "create concurrent with flush()/exit is explored separately over the virtual manager list (engine A)")
     report.assume("remove() of a path that is not listed is not defined by the statement: any outcome accepted, "
